@@ -28,7 +28,7 @@ ASSUMPTIONS = [
 
 def budgets(tier):
     if tier == "quick":
-        return {"examples": 200, "max_s": 80, "shrink_s": 20, "shards": 1}
+        return {"examples": 170, "max_s": 80, "shrink_s": 20, "shards": 1}
     return {"examples": 2000, "max_s": 700, "shrink_s": 90, "shards": 16}
 
 
@@ -126,15 +126,16 @@ def check_case(case):
             smp = _samples(out, rows)
             require(len(smp) == 1, "pairwise.single_sample", lambda: "unobserved plate %r contains samples %r" % (p, smp))
 
-    # ---- FixedSize / OptimalSize
-    for name in ("FixedSize", "OptimalSize"):
-        screen = S.build_screen(sc_any)
+    # ---- FixedSize / OptimalSize (one smoother object per kind, used on the case's layout and then on a second screen)
+    ps = case["plate_size"]
+    smoothers = {"FixedSize": R.FixedSizeSmoother(plate_size=ps), "OptimalSize": R.OptimalSizeSmoother()}
+    second = case.get("pairwise_screen") or case.get("filter_screen")
+    layouts = [sc_any] + ([dict(second, observed=[])] if second else [])
+    for name, lay in [(n_, l_) for l_ in layouts for n_ in ("FixedSize", "OptimalSize")]:
+        screen = S.build_screen(lay)
         before = {p: len(rows) for p, rows in _unobs_plates(screen).items()}
-        if name == "FixedSize":
-            ps = case["plate_size"]
-            out = _run(name, lambda: R.FixedSizeSmoother(plate_size=ps).smooth_plates(screen, np.random.default_rng(seed)), labels)
-        else:
-            out = _run(name, lambda: R.OptimalSizeSmoother().smooth_plates(screen, np.random.default_rng(seed)), labels)
+        smoother = smoothers[name]
+        out = _run(name, lambda: smoother.smooth_plates(screen, np.random.default_rng(seed)), labels)
         if out is None or not before:
             continue
         labels.append("ran:" + name)
